@@ -75,7 +75,11 @@ func gen(t *rapid.T) Case {
 		c.Kind = "scope-builtins"
 		v := rapid.SampledFrom([]string{"dv", "x", "args", "nosuch", "println"}).Draw(t, "dname")
 		c.Src = "dv = 5\nx = \"s\"\nprintln(defined(\"" + v + "\"), defined(\"dv\"), defined(\"args\"), defined(\"nosuch\"))\nfunc f() {\n  var loc = 1\n  return [defined(\"loc\"), defined(\"dv\")]\n}\nprintln(f())\n"
-		switch rapid.IntRange(0, 3).Draw(t, "load") {
+		switch rapid.IntRange(0, 4).Draw(t, "load") {
+		case 4:
+			// the loaded file does not parse: load hands back the parser's error as a run error
+			c.Inc = "println(\"inc\")\nx = (\n"
+			c.Src += "println(\"before load\")\nif !defined(\"seen\") {\n  seen = 1\n  load(\"@DIR@/inc.ank\")\n}\nprintln(\"after load\")\n"
 		case 0:
 			c.Inc = "println(\"inc sees\", dv, len(args))\ninc_made = dv + 1\n"
 			c.Src += "load(\"@DIR@/inc.ank\")\nprintln(\"after load\", inc_made)\n"
@@ -162,12 +166,13 @@ func gen(t *rapid.T) Case {
 			r = append(append(append([]rune{}, r[:at]...), ins...), r[at:]...)
 		}
 		c.Src = string(r)
-	case k <= 9:
+	case k <= 8:
 		c.Kind = "wild-program"
 		c.Src = "println(\"start\", len(args))\n" + wild.Program(t, wild.Opts{Loops: false, Go: false, Prelude: true, MaxDepth: 3, MaxStmts: 3}) + "\nprintln(\"end\")\n"
-	case k == 10:
+	case k <= 10:
 		c.Kind = "tiny"
-		c.Src = rapid.SampledFrom([]string{"1", "println(1)", "throw \"x\"", "x", "1 +", "println(\"a\"); throw 1", "#c", " ", "\n", "return 3", "println(args)", "printf(\"%d\\n\", 7)", "print(\"no newline\")", "println(\"é\")"}).Draw(t, "tiny")
+		c.Src = rapid.SampledFrom([]string{"println('a'); x = 'b'", "'println(1)'", "x = 'q'\nprintln(x)\n'tail'", "'", "''", "println(\"it's\")", "func sum(n) {\n  if n == 0 {\n    return 0\n  }\n  return n + sum(n - 1)\n}\nprintln(sum(1000))", "func sum(n) {\n  if n == 0 {\n    return 0\n  }\n  return n + sum(n - 1)\n}\nprintln(sum(25000))", "func ev(n) {\n  if n == 0 {\n    return true\n  }\n  return od(n - 1)\n}\nfunc od(n) {\n  if n == 0 {\n    return false\n  }\n  return ev(n - 1)\n}\nprintln(ev(60000))",
+			"1", "println(1)", "throw \"x\"", "x", "1 +", "println(\"a\"); throw 1", "#c", " ", "\n", "return 3", "println(args)", "printf(\"%d\\n\", 7)", "print(\"no newline\")", "println(\"é\")"}).Draw(t, "tiny")
 	default:
 		c.Kind = "missing-file"
 		c.Mode = "missing"
